@@ -78,6 +78,9 @@ pub mod collections {
         pub fn clear(&mut self) {
             self.items.clear()
         }
+        pub fn entry(&mut self, k: K) -> Entry<'_, K, V, S> {
+            Entry { map: self, key: k }
+        }
         pub fn values(&self) -> impl Iterator<Item = &V> {
             self.items.iter().map(|kv| &kv.1)
         }
@@ -89,6 +92,39 @@ pub mod collections {
         }
         pub fn iter(&self) -> impl Iterator<Item = (&K, &V)> {
             self.items.iter().map(|kv| (&kv.0, &kv.1))
+        }
+    }
+
+    pub struct Entry<'a, K, V, S> {
+        map: &'a mut HashMap<K, V, S>,
+        key: K,
+    }
+    impl<'a, K: PartialEq, V, S> Entry<'a, K, V, S> {
+        pub fn or_insert(self, default: V) -> &'a mut V {
+            let i = match self.map.pos(&self.key) {
+                Some(i) => i,
+                None => {
+                    self.map.items.push((self.key, default));
+                    self.map.items.len() - 1
+                }
+            };
+            &mut self.map.items.as_mut_slice()[i].1
+        }
+        pub fn or_insert_with<F: FnOnce() -> V>(self, f: F) -> &'a mut V {
+            let i = match self.map.pos(&self.key) {
+                Some(i) => i,
+                None => {
+                    self.map.items.push((self.key, f()));
+                    self.map.items.len() - 1
+                }
+            };
+            &mut self.map.items.as_mut_slice()[i].1
+        }
+        pub fn or_default(self) -> &'a mut V
+        where
+            V: Default,
+        {
+            self.or_insert_with(V::default)
         }
     }
 
